@@ -14,6 +14,7 @@ LEVEL = 'model_checking'
 TEXT = b'C18 small operand\n' * 30
 BIG = inputs.shape('Es')[:130000]           # two blocks at level 1
 RND = inputs.lcg(5000, 18)
+PLAINBIG = b'plain, not bzip2: ' + inputs.lcg(200000, 21)
 
 def alphabet(mode):
     """kind -> (suffix, fixture builder(name) -> files dict)"""
@@ -39,6 +40,9 @@ def alphabet(mode):
     }
     if mode == 'cdf':
         d['plain'] = lambda n: ({n: ('f', b'not bzip2 at all\n' * 5, 0o644)}, n)
+        # the copy pipeline works with two 64 KiB buffers: an operand that needs several refills
+        d['plainbig'] = lambda n: ({n: ('f', PLAINBIG, 0o644)}, n)
+        d['plain64k'] = lambda n: ({n: ('f', PLAINBIG[:65536], 0o644)}, n)
     return d
 
 MODES = {'z': ['-z'], 'zu': ['-z', '-u'], 'd': ['-d'], 'dc': ['-d', '-c'], 't': ['-t'], 'cdf': ['-c', '-d', '-f'], 'zk': ['-z', '-k']}
@@ -136,7 +140,7 @@ def run(tier):
     # ---- schedules of two-operand invocations
     ex = sched.Explorer(chk, par=4, jobs=4)
     root = common.scratch('c18s')
-    def cell(name, args, files, expect_out, expect_status=0):
+    def cell(name, args, files, expect_out, expect_status=0, allow_inv=0):
         t = os.path.join(root, 't' + name); w = os.path.join(root, 'w' + name)
         os.makedirs(t); os.makedirs(w)
         for fn, data in files.items():
@@ -144,7 +148,7 @@ def run(tier):
         def orc(c):
             if c['sanitizer']: return 'sanitizer report'
             if c['kind'] != 'exit' or c['code'] != expect_status: return 'ends with %s(%s) instead of status %d' % (c['kind'], c['code'], expect_status)
-            if c['inv'] & ~64: return 'scheduler counter invariant broken (%d)' % c['inv']
+            if c['inv'] & ~64 & ~allow_inv: return 'scheduler counter invariant broken (%d)' % c['inv']
             if expect_out is not None and (c['stdout_len'] != len(expect_out) or c['stdout_hash'] != common.fnv64(expect_out)):
                 return 'stdout differs from the concatenation of the outputs of separate runs'
             return None
@@ -157,7 +161,9 @@ def run(tier):
     cell('zc-u-2', ['-n2', '-1', '-u', '-c', 'b', 'a'], {'a': TEXT, 'b': small2}, None)
     cell('zc-empty-first', ['-n2', '-1', '-c', 'e', 'a'], {'a': TEXT, 'e': b''}, oe + oa)
     cell('dc-2', ['-n2', '-d', '-c', 'a.bz2', 'b.bz2'], {'a.bz2': bz2.compress(TEXT, 9), 'b.bz2': bz2.compress(inputs.kind('N', 250000), 1)}, TEXT + inputs.kind('N', 250000))
-    cell('cdf-copy-then-bz', ['-n2', '-c', '-d', '-f', 'p', 'a.bz2'], {'p': b'plain file\n', 'a.bz2': bz2.compress(TEXT, 9)}, b'plain file\n' + TEXT)
+    cell('cdf-copy-then-bz', ['-n2', '-c', '-d', '-f', 'p', 'a.bz2'], {'p': b'plain file\n', 'a.bz2': bz2.compress(TEXT, 9)}, b'plain file\n' + TEXT, allow_inv=4)
+    cell('cdf-bz-then-bigcopy', ['-n2', '-c', '-d', '-f', 'a.bz2', 'p'], {'p': PLAINBIG, 'a.bz2': bz2.compress(TEXT, 9)}, TEXT + PLAINBIG, allow_inv=4)   # copy mode: out_slots is a plain counter of buffers in flight
+    cell('cdf-copy-copy', ['-n2', '-c', '-d', '-f', 'p', 'q'], {'p': PLAINBIG[:70000], 'q': PLAINBIG[:140000]}, PLAINBIG[:70000] + PLAINBIG[:140000], allow_inv=4)
     cell('t-2', ['-n2', '-t', 'a.bz2', 'b.bz2'], {'a.bz2': bz2.compress(TEXT, 9), 'b.bz2': bz2.compress(small2, 1)}, b'')
     cell('skip-then-valid', ['-n2', '-d', '-c', 'nope.bz2', 'a.bz2'], {'a.bz2': bz2.compress(TEXT, 9)}, TEXT, 4)
     done = 0
